@@ -8,10 +8,18 @@ mkdir -p build evidence replays
 /venv/bin/python tools/gen_all.py >/dev/null
 sh coq/mkproject.sh
 cd coq
-# lint: no Admitted/admit/Axiom/Parameter/... anywhere in the development
-if grep -rnE '\b(Admitted|admit|Axiom|Parameter|Conjecture|Unset Guard|bypass_check)\b' --include='*.v' Base Gen Model Proofs Props Corr | grep -v '^[^:]*:[0-9]*:[[:space:]]*(\*' ; then
-  echo "lint: forbidden construct found" >&2; exit 1
-fi
+# lint (comment-aware): no Admitted/admit/Axiom/Parameter/... anywhere in the development
+/venv/bin/python - <<'PY'
+import sys, os, glob
+sys.path.insert(0, os.path.join(os.getcwd(), "..", "tools"))
+import vlib
+files = [os.path.relpath(f, vlib.COQ) for d in ("Base", "Gen", "Model", "Proofs", "Props", "Corr")
+         for f in glob.glob(os.path.join(vlib.COQ, d, "*.v"))]
+bad = vlib.lint(files)
+if bad:
+    print("lint: forbidden construct found:\n" + "\n".join(bad)); sys.exit(1)
+print("lint ok (%d files)" % len(files))
+PY
 timeout 3000 make -j16 -k 2>&1 | tail -15
 # optional extracted runners
 if [ -x "$HERE/tools/build_extracted.sh" ]; then "$HERE/tools/build_extracted.sh" || true; fi
